@@ -6,8 +6,10 @@ package models
 
 import (
 	"bytes"
+	"net/url"
 	"strings"
 	"testing"
+	"text/template"
 	"unicode/utf8"
 )
 
@@ -81,6 +83,77 @@ func TestIndex(t *testing.T) {
 			if x, y := bytes.Equal([]byte(a), []byte(b)), verifModel_bytealg_Equal([]byte(a), []byte(b)); x != y {
 				t.Fatalf("Equal(%q,%q)", a, b)
 			}
+		}
+	}
+}
+
+func TestEscapers(t *testing.T) {
+	ins := inputs()
+	ins = append(ins, "\u00e9", "\u2028", "\u2029", "\U0001F600", "a b", "\u200b", "\ufeff", "\U000E0001", "\u0085", "\u00a0x", "\u00ad")
+	for _, s := range ins {
+		if a, b := template.HTMLEscapeString(s), verifModel_template_HTMLEscapeString(s); a != b {
+			t.Fatalf("HTMLEscapeString(%q): %q vs %q", s, a, b)
+		}
+		if a, b := template.JSEscapeString(s), verifModel_template_JSEscapeString(s); a != b {
+			t.Fatalf("JSEscapeString(%q): %q vs %q", s, a, b)
+		}
+		if a, b := url.QueryEscape(s), verifModel_url_QueryEscape(s); a != b {
+			t.Fatalf("QueryEscape(%q): %q vs %q", s, a, b)
+		}
+		if a, b := utf8.ValidString(s), verifModel_utf8_ValidString(s); a != b {
+			t.Fatalf("ValidString(%q): %v vs %v", s, a, b)
+		}
+		if a, b := utf8.RuneCountInString(s), verifModel_utf8_RuneCountInString(s); a != b {
+			t.Fatalf("RuneCountInString(%q): %v vs %v", s, a, b)
+		}
+		for _, chars := range []string{"'\"&<>\000", "a", "<>", ""} {
+			if a, b := strings.IndexAny(s, chars), verifModel_strings_IndexAny(s, chars); a != b {
+				t.Fatalf("IndexAny(%q,%q): %v vs %v", s, chars, a, b)
+			}
+		}
+		for _, sub := range []string{"a", "<", "\n", "ab", "\x80"} {
+			if a, b := strings.Count(s+s, sub), verifModel_strings_Count(s+s, sub); a != b {
+				t.Fatalf("Count(%q,%q)", s, sub)
+			}
+			if a, b := strings.LastIndex(s+s, sub), verifModel_strings_LastIndex(s+s, sub); a != b {
+				t.Fatalf("LastIndex(%q,%q)", s, sub)
+			}
+			if a, b := strings.HasPrefix(s, sub), verifModel_strings_HasPrefix(s, sub); a != b {
+				t.Fatalf("HasPrefix(%q,%q)", s, sub)
+			}
+			if a, b := strings.HasSuffix(s, sub), verifModel_strings_HasSuffix(s, sub); a != b {
+				t.Fatalf("HasSuffix(%q,%q)", s, sub)
+			}
+		}
+		func() {
+			defer func() { recover() }() // inputs outside the model's stated domain panic
+			if a, b := strings.TrimSpace(s), verifModel_strings_TrimSpace(s); a != b {
+				t.Fatalf("TrimSpace(%q): %q vs %q", s, a, b)
+			}
+		}()
+	}
+}
+
+func TestRunes(t *testing.T) {
+	rs := []rune{-1, 0, 1, 0x7f, 0x80, 0x7ff, 0x800, 0xd7ff, 0xd800, 0xdfff, 0xe000, 0xfffd, 0xffff, 0x10000, 0x10ffff, 0x110000, 0x7fffffff}
+	for r := rune(0); r < 0x3000; r++ {
+		rs = append(rs, r)
+	}
+	for _, r := range rs {
+		if a, b := utf8.RuneLen(r), verifModel_utf8_RuneLen(r); a != b {
+			t.Fatalf("RuneLen(%x)", r)
+		}
+		if a, b := utf8.AppendRune([]byte("x"), r), verifModel_utf8_AppendRune([]byte("x"), r); !bytes.Equal(a, b) {
+			t.Fatalf("AppendRune(%x): %x vs %x", r, a, b)
+		}
+		var p, q [4]byte
+		if a, b := utf8.EncodeRune(p[:], r), verifModel_utf8_EncodeRune(q[:], r); a != b || p != q {
+			t.Fatalf("EncodeRune(%x)", r)
+		}
+	}
+	for b := 0; b < 256; b++ {
+		if utf8.RuneStart(byte(b)) != verifModel_utf8_RuneStart(byte(b)) {
+			t.Fatalf("RuneStart(%x)", b)
 		}
 	}
 }
